@@ -18,6 +18,10 @@ Thorough: complete 16-bit enumeration (8x2) of every unary operation incl. the u
 scans, complete 8-bit enumeration of the binary operators, all-widths sweep.
 """
 from .common import *
+
+# other public routes to this property's operations (check.py step 2d): the neighbour generator's requests whose
+# operation matches are part of this run, answered by the neighbour's harness bin
+NEIGHBOURS = {"C17": r"(bitand|bitor|bitxor|not)_", "C18": r"nt_(count_|leading_|trailing_|reverse_bits|swap_bytes|is_zero|is_one)"}
 from . import widthsweep as _ws
 
 # `widths` (shared, count_ones only) and `c06w` (this property's own all-widths bin: harness/src/bin/c06w.rs)
